@@ -24,7 +24,7 @@ ANCHOR_FILES = ["menelaus/concept_drift/md3.py"]
 RULE = (
     "exhaustive cases: one per (configuration, start state, first two calls); every continuation over the alphabet {update "
     "in-margin, update out-of-margin, give label correct, give label incorrect, give label with wrong columns, update with two "
-    "rows} up to the length bound is executed on (deep copies of) the real detector and compared call by call with the shadow "
+    "rows, give two labelled rows at once} up to the length bound is executed on (deep copies of) the real detector and compared call by call with the shadow "
     "model; random cases: long random interleavings with drawn sensitivity / oracle length / k / reference size.  Non-trivial = "
     "the case saw a warning, a refused call and a completed confirmation; distinct = distinct (configuration, start, prefix) "
     "resp. digest of the random call sequence."
@@ -144,7 +144,7 @@ def snap_equal(a, b):
     return all(ka == kb and abs(va - vb) <= 1e-12 for (ka, va), (kb, vb) in zip(a[6], b[6]))
 
 
-CALLS = ("U1", "U0", "L+", "L-", "Lx", "U2")
+CALLS = ("U1", "U0", "L+", "L-", "Lx", "U2", "L2")
 
 
 def call_args(c, m, thr=0.0):
@@ -165,6 +165,8 @@ def call_args(c, m, thr=0.0):
         return "label", row(a, y=0, b=b), (a, b, 0)  # incorrect
     if c == "Lx":
         return "label", row(a, y=1, b=b, cols={"b": "zzz"}), None
+    if c == "L2":
+        return "label", pd.concat([row(a, y=1, b=b), row(a, y=1, b=b + 0.5)], ignore_index=True), None  # two labelled rows at once
     raise ValueError(c)
 
 
@@ -205,7 +207,7 @@ def apply_call(det, m, c, ctx, base, counts):
                 m.waiting = True
                 counts["warnings"] += 1
     else:
-        if (not m.waiting) or c == "Lx":
+        if (not m.waiting) or c in ("Lx", "L2"):
             expect_raise = True
         else:
             m.state = None
@@ -283,6 +285,8 @@ def build(cfg, ctx, base):
     ref = make_reference(rng, cfg["N"], cfg["noise"])
     det = MD3(clf=ProbeClf(0.0), margin_calculation_function=margin_probe, sensitivity=cfg["sensitivity"], k=cfg["k"],
               oracle_data_length_required=cfg["oracle_len"])
+    if cfg["oracle_len"] is None:
+        cfg = dict(cfg, oracle_len=cfg["N"])  # documented default: as many labelled samples as the reference has rows
     del LOG[:]
     det.set_reference(ref, target_name="y")
     m = Model(cfg["sensitivity"], cfg["k"], cfg["oracle_len"])
@@ -350,7 +354,7 @@ def targets(tier):
     t = {"calls_compared": 200000 * k, "warnings": 5000 * k, "confirmed": 200 * k, "ruled_out": 200 * k, "labels_accepted": 5000 * k,
          "reference_fold_logs_checked": 500, "exhaustive_sequences": 80000 * (1 if tier == "quick" else 36), "state_graph_nodes": 50000 * k,
          "oracle_fold_logs_checked": 1000 * k}
-    for c in ("U1", "U0", "L+", "L-", "Lx", "U2"):
+    for c in ("U1", "U0", "L+", "L-", "Lx", "U2", "L2"):
         t["refused:" + c] = 50 * k
     return t
 
@@ -380,7 +384,7 @@ def run_case(case, ctx):
         def refused_by_spec(m, c):
             if c in ("U1", "U0", "U2"):
                 return m.waiting or c == "U2"
-            return (not m.waiting) or c == "Lx"
+            return (not m.waiting) or c in ("Lx", "L2")
 
         def explore(det, m, path, full_left, acc_left):
             """full_left: remaining length of the complete enumeration (every letter continued); acc_left: remaining number of
@@ -422,20 +426,26 @@ def run_case(case, ctx):
         return
     rng = gen.rng_for(case["seed"])
     k = int(rng.choice([2, 3, 5]))
-    cfg = dict(N=int(rng.integers(max(4, k), 30)), k=k, oracle_len=int(rng.integers(k, 13)), sensitivity=float(rng.choice([0.0, 0.5, 1.0, 2.0, 3.0])),
+    cfg = dict(N=int(rng.integers(max(4, k), 30)), k=k, oracle_len=(None if rng.random() < 0.25 else int(rng.integers(k, 13))),
+               sensitivity=float(rng.choice([0.0, 0.5, 1.0, 2.0, 3.0])),
                noise=float(rng.choice([0.1, 0.2, 0.35])), ref_seed=int(rng.integers(0, 10 ** 6)))
     base = dict(cfg=cfg)
     r = build(cfg, ctx, base)
     if r is None:
         return
     det, m = r
+    if cfg["oracle_len"] is None:
+        ctx.count("default_oracle_length_cases")
+        if det.oracle_data_length_required != cfg["N"]:
+            ctx.violation("C19/default_oracle_length", "oracle_data_length_required defaults to %r, the reference has %d rows" % (det.oracle_data_length_required, cfg["N"]), cfg=cfg)
+            return
     ctx.count("reference_fold_logs_checked")
     calls = []
-    p = rng.dirichlet([3, 3, 2, 2, 0.5, 0.5])
+    p = rng.dirichlet([3, 3, 2, 2, 0.5, 0.5, 0.5])
     for i in range(int(rng.integers(100, 400))):
         # bias towards legal calls so that the protocol advances
         if m.waiting:
-            c = str(rng.choice(CALLS, p=[0.05, 0.05, 0.4, 0.4, 0.05, 0.05]))
+            c = str(rng.choice(CALLS, p=[0.04, 0.04, 0.4, 0.4, 0.04, 0.04, 0.04]))
         else:
             c = str(rng.choice(CALLS, p=p))
         calls.append(c)
